@@ -66,7 +66,7 @@ theorem prep_run {inps : List (Tensor Cell)} {s s1 : St} {regs : List (Tensor Ce
     (h : Tr inps s regs) (hi : regs[i]? = some (symInput i (gShape e)))
     (hp : prepInput marked s i e = .ok (sq, s1)) :
     (names (G.leavesL e)).Nodup ∧ sq = squeezedExpr marked e ∧
-    ∃ ext T, Run inps s1 (regs ++ ext) T ∧
+    ∃ ext T, Run inps s1 (regs ++ ext) T ∧ T.data = (symInput i (gShape e)).data ∧
       ReadsC (fun val => Bnd val (G.leavesL e)) (fun val => .src i (ravel (lens (G.leavesL e)) (idx (G.leavesL e) val))) T sq := by
   have hnd : noDup (names (G.leavesL e)) = true := by
     by_cases hnd : noDup (names (G.leavesL e)) = true
@@ -95,7 +95,7 @@ theorem prep_run {inps : List (Tensor Cell)} {s s1 : St} {regs : List (Tensor Ce
       simp only [Bool.not_eq_eq_eq_not, Bool.not_false, Bool.and_eq_true, beq_iff_eq] at hp
       exact hp.1)
   obtain ⟨regs2, T2, hrun2, hsh2, hd2⟩ := reshapeW_run hrun1 (lens sq) hprod
-  refine ⟨regs1 ++ regs2, T2, hrun2.assoc, hsh2, ?_⟩
+  refine ⟨regs1 ++ regs2, T2, hrun2.assoc, by rw [hd2, hd1], hsh2, ?_⟩
   intro val hvi
   have hrv : ravel (lens sq) (idx sq val) = ravel (lens (G.leavesL e)) (idx (G.leavesL e) val) := by
     rw [← hsqdef]
@@ -185,7 +185,7 @@ theorem chain_run {inps : List (Tensor Cell)} {s r : St} {regs : List (Tensor Ce
   | ok x =>
     obtain ⟨sq, s1⟩ := x
     simp only [hp, bind, Except.bind] at hc
-    obtain ⟨hnd, hsq, regs1, T1, hrun1, hR1⟩ := prep_run h hi hp
+    obtain ⟨hnd, hsq, regs1, T1, hrun1, _, hR1⟩ := prep_run h hi hp
     subst hsq
     have hmem : ∀ a ∈ squeezedExpr [] e, a ∈ G.leavesL e ∧ a.len ≠ 1 := by
       intro a ha
